@@ -31,8 +31,9 @@ def run(ctx):
         ctx.build("record", tuple(c["tags"]))
     if ctx.tier == "quick":
         # one orthogonal-array block (49 scenarios: every pair of scalar classes / identity pair / key length /
-        # confirmation setting) x the honest run and every single adversary action at every protocol point
-        groups = [("b0", list(range(49)) + SPECIALS, 1, 1, 4)]
+        # confirmation setting) x the honest run and every second single adversary action at every protocol point
+        # (alternating with the scenario number: every action is taken from half of the scenarios)
+        groups = [("b0", list(range(49)) + SPECIALS, 2, 1, 4)]
         nshard_workers = 4
         nrec, rec_shards = 32, 8
         nrec2, rec2_shards = 12, 4
@@ -83,12 +84,25 @@ def run(ctx):
         return (tuple(n["cls"]) if n["k"] < 10000 else ("special", n["k"]), len(n["uidA"]) // 2, len(n["uidB"]) // 2, n["klen"],
                 n["confA"], n["confB"], advs, st[-1]["op"], st[-1]["ok"])
     ctx.count_distinct(out, key)
+    # vacuity guard: every adversary action at every protocol point, the honest completion and the honest V = O abort
+    # must have been explored and emitted
+    seen = set()
+    for k in ctx.distinct:
+        advs, last, ok = k[6], k[7], k[8]
+        seen.add(("honest", last, ok) if not advs else advs[0][:3] + ((advs[0][3],) if advs[0][0] == "flip" else ()))
+    want = {("honest", "confirmA", True), ("honest", "respond", False)}
+    want |= {("replaceR", at, kd) for at in ("RA", "RB") for kd in ("inf", "offcurve", "range", "wide", "other", "short", "long", "prefix", "empty")}
+    want |= {("flip", at, "", p) for at in ("RB", "SA") for p in (1, 17, 32)}
+    want |= {(w, at, "") for w in ("trunc", "drop", "forge") for at in ("RB", "SA")}
+    if want - seen:
+        raise core.Infra("C08 vacuity guard: not explored: %s" % sorted(want - seen, key=str))
     nrun = core.count_lines(out)
     ctx.extra["protocol_runs_emitted"] = nrun
     ctx.assumptions += [
-        "scalars: classes 1, 2, n-2 (n-1 for ephemeral keys in even scenarios), 2^127-1, 2^127, 2^127+1 and pseudo-random values, combined as an orthogonal array of strength 2 (every pair of classes of every two of dA, dB, rA, rB, identity pair, key length, confirmation setting occurs), not the full product; plus the two scenarios with t = (d + x~r) mod n = 0",
-        "identities: empty (default), explicit default, 1, 53, 62, 117, 200 bytes and 8191 bytes once; key lengths 1, 16, 32, 33, 48, 128, 129 bytes",
-        "adversary: at most %s alteration(s) per run out of {R -> O, off-curve, abscissa = p (non-canonical), other valid point; confirmation bit flipped at byte 1/17/32, truncated, forged, dropped}" % ("1 (2 on 7 scenarios)" if ctx.tier != "quick" else "1"),
+        "scalars: classes 1, 2, n-2 (n-1 for ephemeral keys in even scenarios), 2^127-1, 2^127, 2^127+1 and pseudo-random values, combined as an orthogonal array of strength 2 (every pair of classes of every two of dA, dB, rA, rB, identity pair, key length, confirmation setting occurs), not the full product; plus special scenarios: t = (d + x~r) mod n = 0 at either side (V = O, and the peer adds opposite points), d = x~r mod n at either side (the peer's P + [x~]R is a doubling), klen = 300",
+        "identities: empty (default), explicit default, 1, 53, 62, 117, 200 bytes and 8191 bytes once; key lengths 1, 16, 32, 33, 48, 128, 129 (and 300 once) bytes; one side in three learns its peer's key and identity through SetPeerParameters",
+        "adversary: at most %s alteration(s) per run out of {R -> O, off-curve, abscissa = p (non-canonical), abscissa + p (257 bits), other valid point, encoding short / long / wrong prefix / empty; confirmation bit flipped at byte 1/17/32, truncated, forged, dropped}%s" % (
+            ("1 (2 on 7 scenarios)", "") if ctx.tier != "quick" else ("1", "; the quick tier takes every second action per scenario, alternating with the scenario number")),
         "package ecdh has no confirmation values and holds private scalars in [1, n-2]: r = n-1 is replayed through sm2.KeyExchange only; S1/S2 are checked on sm2.KeyExchange only",
         "the ephemeral scalar of sm2.KeyExchange is injected through the random reader (randFieldElement: one 32-byte read, no MaybeReadByte); reader errors / short reads belong to C12",
         "peer static public keys are always valid (key validation is C05/C06 territory); only ephemeral points are attacked",
